@@ -107,6 +107,16 @@ theorem C12_protected (sf : SpokFile) (cwd : Str) (fs : FS) (hd : isAbs sf.dir =
       exact Bool.noConfusion h1
     exact ⟨herr, runClean_err_fs sf cwd fs herr⟩
 
+/-- `C12_protected` for the worlds the check runs in: the symbolic links of the tree given as a table (path ↦ target), `phys`
+    their resolution `physOf` — no hypothesis about links is left -/
+theorem C12_protected_links (dir : Str) (vars : List (Str × Str)) (tasks : List Task) (links : List (Str × Str))
+    (cwd : Str) (fs : FS) (hd : isAbs dir = true) (hc : isAbs cwd = true) :
+    let sf : SpokFile := ⟨dir, vars, tasks, physOf links⟩
+    (∀ e ∈ fs, protectedPath sf e.1 = true → e ∈ (runClean sf cwd fs).fs) ∧
+    ((∃ d, Designated sf cwd d ∧ protectedPath sf (pathOf d) = true) →
+      (runClean sf cwd fs).err ≠ none ∧ (runClean sf cwd fs).fs = fs ∧ (runClean sf cwd fs).removed = []) :=
+  C12_protected ⟨dir, vars, tasks, physOf links⟩ cwd fs hd hc (physOk_physOf dir vars tasks links)
+
 /-- (1) of `C12_protected` for `--clean` as a whole when there is no user task -/
 theorem C12_protected_handle (sf : SpokFile) (cwd : Str) (fs : FS) (run : FS → FS × Bool)
     (hno : sf.hasTask cleanName = false) (hd : isAbs sf.dir = true) (hc : isAbs cwd = true) (hph : PhysOk sf) :
